@@ -118,14 +118,37 @@ class Sched:
         return results
 
 
+_ADOPTED = {}
+
+
+def adopt(value, sched):
+    """an object of a pybaselines class that is being published on the shared fitter becomes instrumented from that moment on:
+    its class is swapped for a reporting subclass (every data attribute is a pre-emption point)"""
+    cls = type(value)
+    if getattr(cls, '_pbv_proxy', False) or not getattr(cls, '__module__', '').startswith('pybaselines') or not hasattr(value, '__dict__'):
+        return
+    key = (cls, id(sched))
+    if key not in _ADOPTED:
+        _ADOPTED.clear() if len(_ADOPTED) > 64 else None
+        _ADOPTED[key] = _proxy_all(cls, sched, 'cached:' + cls.__name__)
+    try:
+        value.__class__ = _ADOPTED[key]
+    except TypeError:
+        pass
+
+
 def _proxy(base, sched, fields, owner):
     class P(base):
+        _pbv_proxy = True
+
         def __getattribute__(self, name):
             if name in fields:
                 sched.point('R', owner, name, id(self))
             return base.__getattribute__(self, name)
 
         def __setattr__(self, name, value):
+            if owner == 'self':
+                adopt(value, sched)
             if name in fields:
                 sched.point('W', owner, name, id(self), id(value))
             elif getattr(_cur, 'tid', None) is not None:
@@ -139,6 +162,8 @@ def _proxy(base, sched, fields, owner):
 def _proxy_all(base, sched, owner):
     """every DATA attribute of the instances (whatever is stored in the instance dictionary) is a pre-emption point"""
     class P(base):
+        _pbv_proxy = True
+
         def __getattribute__(self, name):
             if not name.startswith('__'):
                 if name in object.__getattribute__(self, '__dict__'):
